@@ -315,7 +315,7 @@ func (r *Run) applyContract(st *State, fr *Frame, x *ssa.Call, callee *ssa.Funct
 	env := &SpecEnv{run: r, st: st, cs: cs, te: cte, mode: "pre", vars: vars, fn: callee}
 	cname := spec.Target
 	for _, c := range spec.ClausesOf("requires") {
-		if c.Props != nil && len(spec.Props) == 0 && currentProp != "" {
+		if c.Tagged && currentProp != "" {
 			// a precondition tagged for specific properties (trusted library contracts): only those checks carry it
 			rel := false
 			for _, p := range c.Props {
